@@ -199,4 +199,60 @@ EncodeStream(forest, st) ==
       body   == FoldLeft(step, [b |-> <<>>, i |-> tbl.i], [k \in 1..Len(forest) |-> k])
       tailc  == Ch(st, body.i, 8)
   IN pre \o tbl.b \o body.b \o (IF tailc = 0 THEN NopPad(1) ELSE <<>>)
+
+EncodePart(forest, lo, hi, syms, st, i0) ==
+  FoldLeft(LAMBDA acc, k : LET r == Enc(forest[k], syms, st, acc.i) IN [b |-> acc.b \o r.b, i |-> r.i],
+           [b |-> <<>>, i |-> i0], [k \in 1..(hi - lo + 1) |-> lo + k - 1])
+
+\* The same values behind a table that first imports `pad` placeholder IDs (a shared table no catalogue has,
+\* declared with max_id = pad): the local symbols get the IDs 10 + pad ..., which moves them across the one-,
+\* two- and three-byte boundaries of symbol values (256, 65536) and of VarUInt field names and annotations
+\* (128, 16384) without a table of that many symbols.
+RECURSIVE Base256(_)
+Base256(n) == IF n = 0 THEN <<>> ELSE Append(Base256(n \div 256), n % 256)
+PadText(k) == <<1, 255, k % 256, (k \div 256) % 256, k \div 65536>>
+T_padname == <<112, 97, 100>>
+EncodeStreamPadded(forest, st, pad) ==
+  LET texts == Dedup(FlattenSeq([k \in 1..Len(forest) |-> TextsOf(forest[k])]))
+      syms  == SelectSeq(texts, LAMBDA t : IndexOf(SystemTexts, t) = 0)
+      decl  == Val("struct", <<>>, << [name |-> TextTok(T_name), val |-> StringVal(T_padname)],
+                                      [name |-> TextTok(T_version), val |-> Val("int", <<>>, [neg |-> FALSE, mag |-> <<1>>])],
+                                      [name |-> TextTok(T_max_id), val |-> Val("int", <<>>, [neg |-> FALSE, mag |-> Base256(pad)])] >>)
+      lst   == Val("struct", <<TextTok(T_ion_symbol_table)>>,
+                   << [name |-> TextTok(T_imports), val |-> Val("list", <<>>, <<decl>>)],
+                      [name |-> TextTok(T_symbols), val |-> Val("list", <<>>, [k \in 1..Len(syms) |-> StringVal(syms[k])])] >>)
+      tbl   == Enc(lst, <<>>, st, 3)
+      all   == [k \in 1..pad |-> PadText(k)] \o syms
+      body  == EncodePart(forest, 1, Len(forest), all, st, tbl.i)
+  IN BVM \o tbl.b \o body.b
+
+\* The same values as a stream in two parts with a change of symbol context in between:
+\*   0  an appending table (imports: $ion_symbol_table) declaring what the second part adds
+\*   1  a version marker (context reset) and a fresh table, symbols in another order
+\*   2  a replacing table without a version marker
+\*   3  a version marker and then an APPENDING table (appends to the system table)
+PartTable(appending, syms) ==
+  Val("struct", <<TextTok(T_ion_symbol_table)>>,
+      (IF appending THEN << [name |-> TextTok(T_imports), val |-> Val("symbol", <<>>, TextTok(T_ion_symbol_table))] >> ELSE <<>>)
+      \o << [name |-> TextTok(T_symbols), val |-> Val("list", <<>>, [k \in 1..Len(syms) |-> StringVal(syms[k])])] >>)
+PartTexts(forest, lo, hi) ==
+  SelectSeq(Dedup(FlattenSeq([k \in 1..(hi - lo + 1) |-> TextsOf(forest[lo + k - 1])])), LAMBDA t : IndexOf(SystemTexts, t) = 0)
+EncodeStreamParts(forest, st) ==
+  LET n == Len(forest) IN
+  IF n < 2 THEN EncodeStream(forest, st)
+  ELSE LET cut  == 1 + Ch(st, 2, n - 1)
+           how  == Ch(st, 1, 4)
+           t1   == PartTexts(forest, 1, cut)
+           t2   == PartTexts(forest, cut + 1, n)
+           new2 == SelectSeq(t2, LAMBDA t : IndexOf(t1, t) = 0)
+           tbl1 == Enc(PartTable(FALSE, t1), <<>>, st, 3)
+           p1   == EncodePart(forest, 1, cut, t1, st, tbl1.i)
+           syms2 == CASE how = 0 -> t1 \o new2  [] how = 1 -> Reverse(t2)  [] OTHER -> t2
+           tbl2 == CASE how = 0 -> Enc(PartTable(TRUE, new2), <<>>, st, p1.i)
+                     [] how = 1 -> Enc(PartTable(FALSE, Reverse(t2)), <<>>, st, p1.i)
+                     [] how = 2 -> Enc(PartTable(FALSE, t2), <<>>, st, p1.i)
+                     [] OTHER   -> Enc(PartTable(TRUE, t2), <<>>, st, p1.i)
+           mark == IF how \in {1, 3} THEN BVM ELSE <<>>
+           p2   == EncodePart(forest, cut + 1, n, syms2, st, tbl2.i)
+       IN BVM \o tbl1.b \o p1.b \o mark \o tbl2.b \o p2.b
 =============================================================================
